@@ -48,29 +48,30 @@ type MatchData struct {
 	// layout
 	// xxxx xxxx xxxx xxx0 : caputured positions
 	// xxxx xxxx xxxx xxx1 : position captured positions
-	captures []uint32
+	// (64-bit words: a 32-bit word wrapped for positions at or beyond 2^31)
+	captures []uint64
 }
 
-func newMatchState() *MatchData { return &MatchData{[]uint32{}} }
+func newMatchState() *MatchData { return &MatchData{[]uint64{}} }
 
 func (st *MatchData) addPosCapture(s, pos int) {
 	for s+1 >= len(st.captures) {
 		st.captures = append(st.captures, 0)
 	}
-	st.captures[s] = (uint32(pos) << 1) | 1
-	st.captures[s+1] = (uint32(pos) << 1) | 1
+	st.captures[s] = (uint64(pos) << 1) | 1
+	st.captures[s+1] = (uint64(pos) << 1) | 1
 }
 
-func (st *MatchData) setCapture(s, pos int) uint32 {
+func (st *MatchData) setCapture(s, pos int) uint64 {
 	for s >= len(st.captures) {
 		st.captures = append(st.captures, 0)
 	}
 	v := st.captures[s]
-	st.captures[s] = (uint32(pos) << 1)
+	st.captures[s] = (uint64(pos) << 1)
 	return v
 }
 
-func (st *MatchData) restoreCapture(s int, pos uint32) { st.captures[s] = pos }
+func (st *MatchData) restoreCapture(s int, pos uint64) { st.captures[s] = pos }
 
 func (st *MatchData) CaptureLength() int { return len(st.captures) }
 
